@@ -42,7 +42,7 @@ func init() {
 		},
 		Run: run,
 		Floors: func(t string) map[string]int64 {
-			return map[string]int64{"spelling.esri": 5000, "spelling.ogc": 1000, "section_order.unit_before_parameters": 1000, "unit.foot": 1000, "unit.us_foot": 1000, "towgs84.3": 1000, "towgs84.7": 1000, "towgs84.none": 1000, "towgs84.none_from_wgs84": 300,
+			return map[string]int64{"spelling.esri": 5000, "spelling.ogc": 1000, "spelling.projection_name_in_another_case": 300, "section_order.unit_before_parameters": 1000, "unit.foot": 1000, "unit.us_foot": 1000, "towgs84.3": 1000, "towgs84.7": 1000, "towgs84.none": 1000, "towgs84.none_from_wgs84": 300,
 				"proj.merc": 300, "proj.lcc": 300, "proj.aea": 300, "proj.eqdc": 300, "proj.tmerc": 300, "proj.longlat": 300, "registry.names": 100, "registry.equal_pairs": 500, "registry.unequal_pairs": 300, "registry.prj_files": 50, "twin.negated": 2000, "names.short_empty_or_unusual": 1000, "wkt.authority_on_nested_objects": 1000, "unit.other_named_factor": 1000, "layout.blank_after_commas": 1000, "twin.nudged": 1000}
 		},
 	})
@@ -167,6 +167,15 @@ func genSys(r *crsgen.R) *sys {
 		parts := []string{geog}
 		if unitFirst {
 			parts = append(parts, unit)
+		}
+		if r.Chance(0.06) {
+			// projection names are looked up without regard to case
+			if r.Bool() {
+				projection = strings.ToLower(projection)
+			} else {
+				projection = strings.ToUpper(projection)
+			}
+			projCase = true
 		}
 		parts = append(parts, `PROJECTION["`+projection+`"]`)
 		parts = append(parts, ps...)
@@ -321,7 +330,11 @@ const wgs84Geo = "+proj=longlat +datum=WGS84 +no_defs"
 
 func runSpelling(c *core.Ctx) {
 	r := c.R
+	projCase = false
 	s := genSys(r)
+	if projCase {
+		c.Count("spelling.projection_name_in_another_case")
+	}
 	c.Count("proj." + s.name)
 	spelling := "esri"
 	if s.ogc {
@@ -446,6 +459,9 @@ var published = map[string]string{
 }
 
 var regNames = []string{"WGS84", "EPSG:4326", "EPSG:4269", "EPSG:3857", "EPSG:3785", "GOOGLE", "EPSG:900913", "EPSG:102113"}
+
+// projCase is set when the last generated WKT spelled its projection name in another case.
+var projCase bool
 
 func runRegistry(c *core.Ctx, idx int) {
 	r := c.R
